@@ -133,7 +133,7 @@ func c13Compare(t *mon.T, label string, st carv2.Stats, rs refStats, a *refcar.A
 
 // c13Archive builds a valid archive and returns file + decoded reference + options used for reading.
 func c13Archive(r *gen.RandT, container string) ([]byte, *refcar.Archive, lab.Cfg) {
-	content := gen.MakeContent(r, gen.ContentOpts{MinBlocks: 0, MaxBlocks: 9, MaxRoots: 4, Dups: true, Boundaries: true, RootsFromBlocks: r.Intn(2) == 0, Block: gen.BlockOpts{MaxSize: 260}})
+	content := gen.MakeContent(r, gen.ContentOpts{MinBlocks: 0, MaxBlocks: 9, MaxRoots: 4, Dups: true, Boundaries: true, RootsFromBlocks: r.Intn(2) == 0, TwinRoots: true, Block: gen.BlockOpts{MaxSize: 260}})
 	payload := refcar.EncodeV1(content.Roots, content.NilRoots, content.Blocks)
 	ref, _ := refcar.DecodeV1(payload, false)
 	cfg := lab.Cfg{}
